@@ -12,7 +12,8 @@ RULE = ("two real dilated wormholes (Noise stand-in) run a random application sc
         "Noise messages, 65490-65545 and 131010-131070) in both directions of every "
         "subchannel, closes, some operations issued while no connection exists - while the selected L2 "
         "link is killed: cut at a swept scheduler step (every step of the baseline in the thorough tier), "
-        "one direction blackholed first (data delivered but acks lost, and the reverse) then cut, "
+        "one direction blackholed first (data delivered but acks lost, and the reverse) then cut, loss noticed by "
+        "the Leader only / by the Follower only (the other end blackholed), "
         "several kills in a row (during the replay after a reconnect), long-lived sessions with 8-24 kills; in a "
         "quarter of the cases a second, undisturbed dilated pair runs its own script in the same process. TCP chunking down to single bytes "
         "makes kills land mid-frame. Non-trivial = at least one effective kill and one delivered write; "
@@ -33,10 +34,10 @@ def cases(tier, seed, prep=None):
     bases = range(3) if q else range(20)
     for b in bases:
         for k in range(60, 420, 6 if q else 1):
-            out.append({"kind": "sweep", "seed": base + 50000 + b, "kill_at": k, "how": ["cut", "lose-acks", "lose-data"][k % 3] if q else "cut"})
+            out.append({"kind": "sweep", "seed": base + 50000 + b, "kill_at": k, "how": ["cut", "lose-acks", "lose-data", "leader-first", "follower-first"][k % 5] if q else "cut"})
         if not q:
             for k in range(60, 420, 3):
-                out.append({"kind": "sweep", "seed": base + 50000 + b, "kill_at": k, "how": ["lose-acks", "lose-data"][k % 2]})
+                out.append({"kind": "sweep", "seed": base + 50000 + b, "kill_at": k, "how": ["lose-acks", "lose-data", "leader-first", "follower-first"][k % 4]})
     for i in range(40 if q else 1200):
         out.append({"kind": "twins", "seed": base + 70000 + i})
     for b in (range(2) if q else range(10)):
@@ -94,6 +95,18 @@ def run_case(spec):
         kills["done"] += 1
         if how == "cut":
             world.reactor.cut(link)
+        elif how in ("leader-first", "follower-first"):
+            # only one side notices (the other end is blackholed): its RECONNECT / the ping timeout tells the other
+            from twisted.internet import error
+            from twisted.python import failure
+            from ..simnet import unwrap
+            lead = dp.leader()
+            who = lead if how == "leader-first" else ("B" if lead == "A" else "A")
+            world.reactor.blackhole(link)
+            for e in link.ends:
+                if dp.party_of(unwrap(e.protocol)) == who and e.connected:
+                    e.outbuf.clear()
+                    e._connection_lost(failure.Failure(error.ConnectionLost()))
         else:
             # direction index of the leader->follower stream
             lead = dp.leader()
@@ -107,7 +120,7 @@ def run_case(spec):
     elif spec["kind"] == "random":
         nk = spec.get("nkills") or rng.choice([0, 1, 1, 2, 3, 5])
         for _ in range(nk):
-            sch.faults.append((rng.randint(40, 500 if nk < 8 else 850), (lambda h=rng.choice(["cut", "cut", "lose-acks", "lose-data"]): kill(h)), "kill"))
+            sch.faults.append((rng.randint(40, 500 if nk < 8 else 850), (lambda h=rng.choice(["cut", "cut", "lose-acks", "lose-data", "leader-first", "follower-first"]): kill(h)), "kill"))
     else:
         sch.faults.append((spec["kill_at"], lambda: kill(spec["how"]), "kill " + spec["how"]))
         for gap in spec.get("again", []):
